@@ -65,6 +65,7 @@ def mon_c01_c10(sc, controller):
         adapts[(c["src"], c["dst"])] = conn_delay(sc, c, plain=True)
     begun = {i: [] for i in range(n)}
     inflight = {i: None for i in range(n)}
+    async_pairs = {(c["src"], c["dst"]) for c in sc["connects"] if c.get("async")}
     for idx, e in enumerate(controller.full_trace):
         if e[0] == "begin":
             i, t = sid_i(e[1]), tuple(e[2])
@@ -87,6 +88,22 @@ def mon_c01_c10(sc, controller):
                         vio01.append({"law": "provider stepped at a time whose delayed output is due at or before a step its consumer has begun",
                                       "provider": i, "s": t, "consumer": C, "t": tc, "event": idx})
                         break
+            # C01, async requests: A (source of an async_requests connection) waits for its agent B whatever lazy_stepping says
+            for (A, B) in async_pairs:
+                ad = adapts.get((A, B))
+                if ad is None or A == B:
+                    continue
+                if i == A:
+                    s = inflight[B]
+                    if s is not None and s < act(t, ad):
+                        vio01.append({"law": "controller began a step while its async agent still has an earlier step in flight", "controller": A, "t": t,
+                                      "agent": B, "agent_step": s, "event": idx})
+                if i == B:
+                    for ta in begun[A]:
+                        if t < act(ta, ad):
+                            vio01.append({"law": "async agent stepped at a time earlier than a step its controller had already begun", "controller": A,
+                                          "controller_step": ta, "agent": B, "t": t, "event": idx})
+                            break
             # C10: lazy stepping
             if sc["lazy"]:
                 for C in range(n):
